@@ -8,8 +8,8 @@ CONSTANTS
   Preamble = TRUE
   MaxConf = 1
   Buf = 1
-  Fixes = {"D1", "D14", "D2", "D18", "D19"}
+  Fixes = {"D1", "D14", "D2", "D18", "D19", "D20"}
   ReplayLen = 9
-INVARIANTS RowsOnceInOrder Lag PrefixStable Boundary Replay
+INVARIANTS RowsOnceInOrder Lag PrefixStable Boundary LanguageByName Replay
 PROPERTY NeverRevised
 CHECK_DEADLOCK FALSE
